@@ -310,6 +310,9 @@ class WsWorld:
         nt = self.fw.next_timer(self.reactor)
         if nt is None:
             return []
+        if self.fw.loop_actions(self) and nt - self.now() > 1e-9:
+            # asyncio: a loop with ready callbacks does not sleep - virtual time stands still until they ran
+            return []
         acts = [(8.0 if nt - self.now() < 1e-3 else 1.5, "tick", self.do_tick)]
         if nt - self.now() > 0.002:
             acts.append((0.5, "advance", self.do_advance))
